@@ -169,6 +169,12 @@ def cases(seed, tier, shard, nshards):   # noqa: F811 - add features computed fr
             chords = [sorted(rng.sample(range(n), 2)) for _ in range(rng.choice([0, 1, 2]))]
             c['failed_write_before'] = dict(n=n, chords=chords, unnamed=rng.randrange(1, n), orders=[rng.choice([1, 1, 2, 3]) for _ in range(n + len(chords))])
             c['features'] = sorted(set(c['features']) | {'after_a_failed_write'})
+        elif rng.random() < 0.05 and not c.get('default_recursion_limit') and len(c['nodes']) >= 3:
+            # history on ONE graph object: written, then edited in place (a bead added to some node, a bond moved or added),
+            # then written again; the second string must read back as the edited graph
+            c['rewrite_after_edit'] = dict(attach=rng.randrange(len(c['nodes'])), pair=sorted(rng.sample(range(len(c['nodes'])), 2)),
+                                           order=rng.choice([1, 1, 2, 3]), name=rng.choice(NAMES))
+            c['features'] = sorted(set(c['features']) | {'written_again_after_an_in_place_edit'})
         yield c
 
 
@@ -235,6 +241,25 @@ def run(case):
                 why = f'the written string is outside the documented grammar ({err}): writer fault'
             viol.append(V('c07.not_isomorphic', f'graph nodes {case["nodes"]} edges {case["edges"]} written as {s!r} reads back as '
                           f'{[g2.nodes[n].get("fragname") for n in g2]} {sorted(util.edge_table(g2).items())}; {why}'))
+        ed = case.get('rewrite_after_edit')
+        if ed and not viol:
+            keys = list(g.nodes)
+            new = max(keys) + 1 if all(isinstance(k, int) for k in keys) else 'n99'
+            g.add_node(new, fragname=ed['name'])
+            g.add_edge(keys[ed['attach']], new, order=ed['order'])
+            a_, b_ = keys[ed['pair'][0]], keys[ed['pair'][1]]
+            if g.has_edge(a_, b_) and not nx.has_path(nx.restricted_view(g, [], [(a_, b_)]), a_, b_):
+                pass            # a bridge: leave it
+            elif g.has_edge(a_, b_):
+                g.remove_edge(a_, b_)
+            else:
+                g.add_edge(a_, b_, order=ed['order'])
+            s2 = write_cgsmiles_graph(g)
+            g3 = cgsmiles.read_cgsmiles(s2)
+            counters['rewrites_after_in_place_edit'] = 1
+            if not util.iso(g, g3, node_keys=('fragname',), edge_keys=('order',)):
+                viol.append(V('c07.not_isomorphic', f'graph nodes {case["nodes"]} edges {case["edges"]} was written as {s!r}, then edited in place (node {new!r} added to {keys[ed["attach"]]!r}, '
+                              f'bond {a_!r}-{b_!r} toggled) and written as {s2!r}, which does not read back as the edited graph'))
     except Exception as err:
         viol.append(V('c07.exception.' + type(err).__name__, f'graph nodes {case["nodes"]} edges {case["edges"]} (written: {s!r}) raised {type(err).__name__}: {err}'))
     nonsingle = any(o != 1 for _, _, o in case['edges'])
